@@ -185,6 +185,20 @@ def run(ctx):
     ctx.oblige("tie:translation:all-check-functions-translated", all(m["translated"] for m in meta.values()),
                detail=", ".join(n for n, m in meta.items() if not m["translated"]))
     refuted_now_note(ctx)
+    # The hand-written contracts refer to the value atoms of a check by their SOURCE TEXT.  When the atoms of a generated check
+    # are no longer the reviewed ones (an expression was edited, hoisted into a local, split ...) the contract cannot be evaluated
+    # on real arguments any more: that is a broken tie of that function (no verdicts are drawn from its contract), not a failing input.
+    import json as _json
+    pins = _json.loads((core.ROOT / "tools" / "shape_atoms_pins.json").read_text())
+    atoms_changed = set()
+    for fn, m in meta.items():
+        now = [a["name"] for a in m.get("atoms", [])]
+        ok = fn in pins and sorted(now) == sorted(pins[fn])
+        ctx.oblige(f"tie:contract-atoms:{fn}", ok,
+                   detail="" if ok else f"value atoms of the generated check {now} differ from the reviewed ones {pins.get(fn)}: the contract "
+                                        "theorem of this check function no longer applies to the tree (run tools/tr_shapes.py and review)")
+        if not ok:
+            atoms_changed.add(fn)
     rows = SL.option_variants(SL.base_calls())
     s = ctx.stream("shape-perturbation (functional + class update, every option value) vs Coq contracts")
     s.exhaustive = True
@@ -296,6 +310,9 @@ def run(ctx):
                 s.count("base-call-skips-a-guarding-check")
                 ctx.notes.append(f"{target} [{row['tag']}] ({c['kind']}) does not reach {missing} which guards its other code paths; "
                                  "judged by that contract on name-resolved arguments")
+        if any(inv["fn"] in atoms_changed for inv in c["invs"]):
+            s.count("not-judged:contract-atoms-changed")
+            continue
         verdicts = [(inv["fn"], outs[inv["idx"]]) for inv in c["invs"]]
         rejecting = [fn for fn, cv in verdicts if cv is False]
         nocontract = [fn for fn, cv in verdicts if not isinstance(cv, bool)]
